@@ -873,6 +873,77 @@ def rule_r27(text, rules):
         text = text[:st[r].start] + new + text[st[oc + 1].end:]
         rules.append("R27")
 
+def rule_r28(text, rules):
+    """E.for_each(|X| { BODY });   (a whole statement; X a pattern without `|`)   ->   for X in E { BODY }
+    - the definition of Iterator::for_each ("calls a closure on each element of an iterator ... equivalent to using a for loop"); a
+    `return` inside the closure body would mean `continue`, so a BODY that contains `return` is refused."""
+    while True:
+        toks, st = _sig_with_index(text)
+        hit = None
+        for i in range(len(st) - 6):
+            if [y.text for y in st[i:i + 4]] != [".", "for_each", "(", "|"]: continue
+            # receiver expression: back to the start of the statement
+            r = i - 1
+            while r > 0 and not _stmt_start(st, r):
+                if st[r].kind == "punct" and st[r].text in CLOSE:
+                    d = 0
+                    while True:
+                        if st[r].text in CLOSE and st[r].kind == "punct": d += 1
+                        elif st[r].text in OPEN and st[r].kind == "punct": d -= 1
+                        if d == 0: break
+                        r -= 1
+                    if _stmt_start(st, r): break
+                r -= 1
+            if st[r].kind != "ident": continue
+            ao = i + 2; ac = match_close(st, ao)
+            p = ao + 2
+            while st[p].text != "|": p += 1
+            if st[p + 1].text != "{" or match_close(st, p + 1) != ac - 1: continue
+            if st[ac + 1].text != ";": continue
+            if any(y.kind == "ident" and y.text == "return" for y in st[p + 1:ac]): raise ExtractError("R28: `return` inside a for_each closure")
+            hit = (r, i, ao, ac, p); break
+        if hit is None: return text
+        r, i, ao, ac, p = hit
+        E = text[st[r].start:st[i - 1].end]
+        X = text[st[ao + 2].start:st[p - 1].end]
+        body = text[st[p + 1].start:st[ac - 1].end]
+        text = text[:st[r].start] + "for %s in %s %s" % (X, E, body) + text[st[ac + 1].end:]
+        rules.append("R28")
+
+def rule_r29(text, rules):
+    """RECV.and_then(|X| E)   (X one identifier, RECV a chain `ident(.ident | .ident(args))*`)   ->   (match RECV { Some(X) => E, None => None })
+    - the definition of Option::and_then; only applied where the closure CAPTURES by mutable reference is the problem (a closure
+    literal as the argument).  On a Result receiver the rewrite would not type-check, so a wrong guess cannot go unnoticed."""
+    while True:
+        toks, st = _sig_with_index(text)
+        hit = None
+        for i in range(1, len(st) - 6):
+            if [y.text for y in st[i:i + 4]] != [".", "and_then", "("]+["|"]: continue
+            if st[i + 4].kind != "ident" or st[i + 5].text != "|": continue
+            r = i - 1
+            while True:
+                if st[r].kind == "punct" and st[r].text == ")":
+                    d = 0
+                    while True:
+                        if st[r].kind == "punct" and st[r].text in CLOSE: d += 1
+                        elif st[r].kind == "punct" and st[r].text in OPEN: d -= 1
+                        if d == 0: break
+                        r -= 1
+                    r -= 1      # the method / fn name before `(`
+                if st[r].kind != "ident": r = None; break
+                if r - 1 >= 0 and st[r - 1].text == ".": r -= 2; continue
+                break
+            if r is None: continue
+            ao = i + 2; ac = match_close(st, ao)
+            hit = (r, i, ao, ac); break
+        if hit is None: return text
+        r, i, ao, ac = hit
+        RECV = text[st[r].start:st[i - 1].end]
+        X = st[ao + 2].text
+        E = text[st[ao + 4].start:st[ac - 1].end]
+        text = text[:st[r].start] + "(match %s { Some(%s) => %s, None => None })" % (RECV, X, E) + text[st[ac].end:]
+        rules.append("R29")
+
 def rule_r18(text, rules, specs):
     """for PAT in E { B }  ->  { let mut IT = INTO(E); loop { match NEXT(&mut IT) { None => { break; } Some(PAT) => { B } } } }
     - the definition of `for` in the Rust reference - for iterators that have no Verus specification (wasmparser's section
@@ -1252,6 +1323,8 @@ def extract_item(path, selector, opts, directives, findings_open):
         text = rule_r24(text, rules)
         text = rule_r25(text, rules)
         text = rule_r27(text, rules)
+        text = rule_r28(text, rules)
+        text = rule_r29(text, rules)
         if directives.get("encodecalls"):
             text = rule_r26(text, rules, directives["encodecalls"])
         if directives.get("fornext") and it.kind == "fn":
